@@ -1,4 +1,13 @@
 /-
+PROPOSAL — NOT THE CODE AS IT IS.  This file models / proves facts about a CANDIDATE repair of
+`sortRoutes` (/verif/.run/fixes/C16-sortroutes.patch: precomputed per-route keys compared as a
+strict total order) that was reviewed and NOT applied, because it changes the route order of
+existing configs with 20 or fewer routes.  It is not imported by the driver, Props or Audit and
+is not part of what `./check C16` builds; it is kept as a worked-out option should upstream
+want a comparator that is a strict weak order.  The tree's `sortRoutes` is `Model.lean` +
+`Stable.lean`; its over-20-routes defect stays a known finding (`Witness.lean`).
+-/
+/-
 C16 — `sortRoutes` as it is after the repair of the over-20-routes defect: every route gets a
 sort key once (`keyOf`, computed in written order with two per-directive counters) and
 `sort.SliceStable` compares keys (`lessKey`), which is a strict total order on the keyed
